@@ -34,6 +34,10 @@ DIALECTS = [[",", '"'], [",", '"'], [",", '"'], [";", '"'], ["|", '"'], ["\t", '
 def generate(rng, i, tier):
     rows = gen.gen_rows(rng)
     hdr = rows[0]
+    if rng.random() < 0.25 and len(rows) > 2:
+        # an exact duplicate of a record somewhere later in the file
+        src = rng.choice([r for r in rows[1:] if r] or [rows[0]])
+        rows.insert(rng.randint(2, len(rows)), list(src))
     k = rng.choice([1, 2, 2, 3, 3, 4])
     members = [gen.gen_member(rng, hdr, len(rows), f"m{j}", zoo_p=0.4, zoo_pool=gen.ZOO_SAFE) for j in range(k)]
     rng.shuffle(members)  # seeded member order
@@ -118,7 +122,12 @@ def execute(sc):
             out.probe("blank last record with last()")
         if any("advance(" in c for m in members for c in m["comps"]) and any(r == [] for r in rows[1:-1]):
             out.probe("advance in a file with interior blank records")
-        rowid = {r[0]: idx for idx, r in enumerate(rows) if r}
+        ids = [r[0] for r in rows if r]
+        dup_ids = {x for x in ids if ids.count(x) > 1}
+        rowid = {r[0]: idx for idx, r in enumerate(rows) if r and r[0] not in dup_ids}
+        if dup_ids:
+            out.probe("file with an exact duplicate record")
+        callers = {}
 
         configs = [("collect_paths", None), ("next_paths_collect", None), ("fast_forward_paths", None)]
         for agree in (False, True):
@@ -149,6 +158,10 @@ def execute(sc):
                 if caller != want:
                     out.v("next_paths_stream", f"{where}: caller saw {caller!r:.300}, concatenation of members' lines is {want!r:.300}", method=meth)
             if meth in ("collect_by_line", "next_by_line"):
+                callers[(meth, agree)] = caller
+                other = callers.get(("next_by_line" if meth == "collect_by_line" else "collect_by_line", agree))
+                if other is not None and other != caller:
+                    out.v("byline_forms_differ", f"if_all_agree={agree}: collect_by_line returned {callers[('collect_by_line', agree)]!r:.300} but next_by_line yielded {callers[('next_by_line', agree)]!r:.300}", agree=bool(agree))
                 # per record decisions of the standalone twins
                 dec = {m["id"]: {rowid[l[0]] for l in alone[m["id"]]["lines"] if l and l[0] in rowid} for m in members}
                 seen = [rowid.get(l[0]) if l else None for l in caller]
@@ -156,7 +169,7 @@ def execute(sc):
                 if idxs != sorted(idxs) or len(set(idxs)) != len(idxs):
                     out.v("caller_order", f"{where}: caller-visible records out of file order or repeated: {idxs}", method=meth)
                 for idx, row in enumerate(rows):
-                    if not row or idx > last_all_running:
+                    if not row or idx > last_all_running or row[0] in dup_ids:
                         continue
                     votes = [idx in dec[m["id"]] for m in members]
                     want = all(votes) if agree else any(votes)
@@ -173,7 +186,7 @@ def execute(sc):
         out.sig = [k, [(_features(m), m["scan"][-1:] if m["scan"] == "*" else "w") for m in members], "".join("b" if r == [] else "r" for r in rows)[:12], sc["dialect"] != [",", '"']]
         out.nontrivial = k >= 2 or bool(feats)
         out.extra["features"] = feats
-        for pr in ("a member stopped while others continue", "blank last record with last()", "advance in a file with interior blank records"):
+        for pr in ("file with an exact duplicate record", "a member stopped while others continue", "blank last record with last()", "advance in a file with interior blank records"):
             out.probe(pr, False)
         out.log(alone, stop_line, len(out.violations))
     return out.done()
